@@ -1,7 +1,7 @@
 // C18 — Codepoints entries compare consistently with code points.
 // Functions encoded: every PartialEq/PartialOrd impl between precis_core::Codepoints and u32
 // (both directions) as generated from codepoints.template by the real build.
-use crate::sup::*;
+use super::sup::*;
 use core::cmp::Ordering;
 use precis_core::Codepoints;
 
